@@ -1,4 +1,5 @@
-import Proofs.Lemmas.HCMCommon
+import Proofs.Lemmas.HCMBasic
+import Proofs.Lemmas.HCMFlush
 
 namespace PylifeVerif
 open HCM
@@ -12,6 +13,94 @@ def pass2Ranges (st : State) : List (Int × Int) :=
   (st.recs.filter (·.run = 2)).map fun h => (rep h.loadMin, rep h.loadMax)
 
 def TwoDistinct (s : List Int) : Prop := ∃ a ∈ s, ∃ b ∈ s, a ≠ b
+
+/-- the property of one record claimed by `memory3_symmetric` -/
+def RecOK (h : Hyst) : Prop :=
+  (h.closed = false → h.zeroMean = true ∧ h.loadMin = vneg h.loadMax ∧ h.sMin = vneg h.sMax ∧ h.eMin = vneg h.eMax) ∧
+  (h.closed = true → h.zeroMean = false)
+
+theorem recOK_half (st : State) (prev : HPoint) : RecOK (halfHyst st prev) := by
+  simp [RecOK, halfHyst]
+
+theorem recOK_closed (st : State) (p0 p1 : HPoint) : RecOK (closedHyst st p0 p1) := by
+  simp [RecOK, closedHyst]
+
+/-- Half-counted (Memory 3) hystereses are symmetric about zero and carry the zero-mean flag;
+closed ones do not. -/
+theorem memory3_symmetric (law : Law) (s : List Vec) :
+    ∀ h ∈ (twoPass law s).recs,
+      (h.closed = false → h.zeroMean = true ∧ h.loadMin = vneg h.loadMax ∧ h.sMin = vneg h.sMax ∧ h.eMin = vneg h.eMax) ∧
+      (h.closed = true → h.zeroMean = false) := by
+  unfold twoPass
+  have p1 := process_recs law RecOK {} (adjustFirstRun (dropTrailingNonReversals s)).1
+    (adjustFirstRun (dropTrailingNonReversals s)).2
+    (fun _ st' prev _ => recOK_half st' prev) (fun st' p0 p1 _ => recOK_closed st' p0 p1)
+    (by intro h hh; simp at hh)
+  have p2 := process_recs law RecOK _ (dropTrailingNonReversals s) true
+    (fun _ st' prev _ => recOK_half st' prev) (fun st' p0 p1 _ => recOK_closed st' p0 p1) p1.2.2.2
+  exact p2.2.2.2
+
+
+/-- the property of one record claimed by `pass2_all_closed` -/
+def Pass2Closed (h : Hyst) : Prop := h.run = 2 → h.closed = true
+
+/-- Memory 3 occurs only in the first pass - under the explicit (decidable) hypothesis that the first
+pass flushes, i.e. is fed the last sample of the trimmed sequence.  (This hypothesis is what
+`TwoDistinct (s.map rep)` provides, see below.) -/
+theorem pass2_all_closed_of_flush (law : Law) (s : List Vec)
+    (hf : (adjustFirstRun (dropTrailingNonReversals s)).2 = true) :
+    ∀ h ∈ (twoPass law s).recs, h.run = 2 → h.closed = true := by
+  rw [twoPass_eq, hf, adjustFirstRun_fst]
+  generalize dropTrailingNonReversals s = s'
+  generalize hz : List.replicate (s'.headD []).length (0 : Int) = z
+  have hz0 : rep z = 0 := by rw [← hz]; exact rep_replicate_zero _
+  -- pass 1
+  have p1 := process_recs law Pass2Closed {} (z :: s') true
+    (fun _ st' prev hr => by intro h2; simp [halfHyst, hr] at h2)
+    (fun st' p0 p1 _ => by intro _; rfl)
+    (by intro h hh; simp at hh)
+  obtain ⟨r1, _, d1, q1⟩ := p1
+  have hdom : ∀ x ∈ (z :: s').map rep,
+      x.natAbs ≤ (process law {} (z :: s') true).loadMax := by
+    intro x hx
+    obtain ⟨load, hl, hle⟩ := pass1_dominates s' z hz0 x hx
+    exact Nat.le_trans hle (d1 load hl)
+  have hls : (process law {} (z :: s') true).lastSample ∈ z :: s' := by
+    rw [process_lastSample, List.getLastD_cons]
+    cases hs : s' with
+    | nil => simp
+    | cons a l =>
+      rw [List.getLastD_eq_getLast?, List.getLast?_eq_some_getLast (List.cons_ne_nil _ _)]
+      exact List.mem_cons_of_mem _ (List.getLast_mem _)
+  -- pass 2
+  have hno : ¬ ∃ load ∈ procLoads (process law {} (z :: s') true) s' true,
+      (rep load).natAbs > (process law {} (z :: s') true).loadMax := by
+    rintro ⟨load, hl, hgt⟩
+    rcases procLoads_mem _ _ _ load hl with h | h | h
+    · have := hdom (rep load) (List.mem_map.mpr ⟨load, by rw [h]; exact hls, rfl⟩)
+      omega
+    · have := hdom (rep load) (List.mem_map.mpr ⟨load, List.mem_cons_of_mem _ h, rfl⟩)
+      omega
+    · rw [h] at hgt; simp [rep] at hgt
+  have p2 := process_recs law Pass2Closed (process law {} (z :: s') true) s' true
+    (fun hex => absurd hex hno) (fun st' p0 p1 _ => by intro _; rfl) q1
+  exact p2.2.2.2
+
+
+/-- Memory 3 occurs only in the first pass: every hysteresis of pass 2 is a full one. -/
+theorem pass2_all_closed (law : Law) (s : List Vec) (h2 : TwoDistinct (s.map rep)) :
+    ∀ h ∈ (twoPass law s).recs, h.run = 2 → h.closed = true :=
+  pass2_all_closed_of_flush law s (flush_of_twoDistinct s h2)
+
+/-! ### non-vacuity -/
+
+example : TwoDistinct ((one [100, -200, 0, 200, -100, 100]).map rep) :=
+  ⟨100, by decide, -200, by decide, by decide⟩
+
+/-- a sequence whose two passes record half (Memory 3) and closed hystereses, some of them in pass 2 -/
+example : ((twoPass lawLinear (one [100, -200, 0, 200, -100, 100])).recs.map
+    fun h => (h.run, h.closed, rep h.loadMin, rep h.loadMax)) =
+    [(1, false, -100, 100), (2, true, -100, 100), (2, true, -200, 200)] := by decide +kernel
 
 end C04
 end PylifeVerif
